@@ -472,6 +472,9 @@ func (in *Interp) fmtOperandM(v Value, verb byte, sharp bool, methods bool) ([]*
 			if verb == 'v' || verb == 'd' {
 				_, signed, _ := basicSort(u)
 				t := iv.v.(*Term)
+				if in.fmtLenient && t.op != OpConst {
+					return nil, false
+				}
 				x := in.concretize(in.tt.Resize(t, 64, signed), "integer formatted by fmt")
 				if signed {
 					return in.mkStr(strconv.FormatInt(x, 10)).b, true
@@ -630,7 +633,9 @@ func (in *Interp) newError(msg StrV) IfaceV {
 
 func iFmtErrorf(in *Interp, fn *ssa.Function, a []Value) Value {
 	f := in.concreteStr(a[0], "format")
+	in.fmtLenient = true
 	bs, ok := in.sprintf(f, in.variadic(a[1]))
+	in.fmtLenient = false
 	if !ok {
 		// error text is opaque: the message of an error is outside every property
 		bs = in.mkStr("<opaque error: " + f + ">").b
